@@ -18,14 +18,15 @@ class BudgetExceeded(BaseException):
     pass
 
 
-def instantiate(ws: dict, j: int) -> dict:
-    """Replace every parameterised capacity {"p": r} by 2**j + r and re-derive the extents of delimited types."""
+def instantiate(ws: dict, j: int, cap: int | None = None) -> dict:
+    """Replace every parameterised capacity {"p": r} by 2**j + r (or by the explicit capacity `cap`) and re-derive the
+    extents of delimited types."""
     ws = copy.deepcopy(ws)
 
     def fix(t):
         if t[0] in ("arr", "var"):
             if isinstance(t[2], dict):
-                t[2] = 2 ** j + t[2]["p"]
+                t[2] = cap if cap is not None else 2 ** j + t[2]["p"]
             fix(t[1])
     for r in ws["roots"]:
         for d in r["defs"]:
@@ -190,8 +191,13 @@ class C16(Check):
                 sys.settrace(tracer)
                 try:
                     res = w.run_read({"op": "rn", "root": {"p": uni.roots[0]["dir"]}, "lookups": [], "key": None, "cwd": ""})
-                    if res["ok"]:
+                    res2 = w.run_read({"op": "rn", "root": {"p": uni.roots[0]["dir"]}, "lookups": [], "key": None, "cwd": ""}) if res["ok"] else res
+                    if res["ok"] and res2["ok"]:
                         obs = []
+                        # equality and hash between *distinct* equal objects (two independent reads), as the namespace reader
+                        # itself does when it keeps composites in sets
+                        for t1, t2 in zip(res["direct"], res2["direct"]):
+                            obs.append([str(t1), t1 == t2, hash(t1) == hash(t2)])
                         for n, t in enumerate(res["direct"]):
                             for (at, dt) in jl:
                                 if at % max(1, len(res["direct"])) == n:
@@ -301,6 +307,27 @@ class C16(Check):
                          "steps-other:" + ("more" if c["other"] > c0["other"] else "fewer"))
             if struct != s0:
                 out.fail("C16.constant", "capacity-independent answers (fixed_length / alignment flags / residues) changed with the capacity", "answers")
+        # mid-band: capacities below the plateau (12 .. 90). There the repetition counts themselves are the capacities, so the
+        # work legitimately grows - but only up to the work of an instance on the plateau whose counts modulo the queried
+        # divisors are maximal (capacity 159 = 128 + 31: 15 modulo-8 iterations, 63 modulo-32 iterations, same 8-bit prefix).
+        # An implementation that enumerates sets (in ==, hash, alignment queries) explodes exactly in this band.
+        if not out.viol and base_counts is not None:
+            limit["bls"] = ABS_LIMIT
+            self.heartbeat()
+            c_ref, r_ref = measure(instantiate(scn["ws"], 7, cap=159), [])
+            if r_ref[0] == "ok":
+                for cap in (12, 24, 48, 90):
+                    limit["bls"] = 50 * c_ref["bls"] + 500_000
+                    self.heartbeat()
+                    c, result = measure(instantiate(scn["ws"], 7, cap=cap), [])
+                    out.stats["midband_instances"] += 1
+                    out.obs.append(["cap", cap, c["bls"], result[0]])
+                    if result[0] == "budget":
+                        out.fail("C16.budget", "capacity %d: more than %d solver steps, while capacity 159 (all repetition counts at least as large modulo 8 and 32) needs %d: the cost explodes below the plateau" % (cap, limit["bls"], c_ref["bls"]), "midband")
+                        break
+                    if c["expand_nonleaf"]:
+                        out.fail("C16.no-expand", "capacity %d: %d numerical expansions of non-leaf operators while querying symbolic attributes" % (cap, c["expand_nonleaf"]), "expand")
+                        break
         return out
 
 
